@@ -436,8 +436,40 @@ def make_machine(ctx):
     return Machine
 
 
+def check_tall(ctx, case):
+    """A rectangle below row 65535 (tables may have 1,000,000 rows): the same picture after reload."""
+    from numbers_parser import Document
+    import tempfile
+    import shutil
+    from pathlib import Path
+
+    tmp = Path(tempfile.mkdtemp(prefix="vf_c12t_"))
+    try:
+        r0, r1 = case["r0"], case["r1"]
+        with warnings.catch_warnings():
+            warnings.simplefilter("ignore")
+            d = Document(num_rows=r1 + 2, num_cols=2, num_header_rows=0, num_header_cols=0)
+            t = d.sheets[0].tables[0]
+            t.merge_cells(rng(r0, 0, r1, 1))
+            open_ranges = list(t.merge_ranges)
+            d.save(tmp / "tall.numbers")
+            t2 = Document(tmp / "tall.numbers").sheets[0].tables[0]
+        ctx.ev()
+        want = [rng(r0, 0, r1, 1)]
+        if open_ranges != want:
+            ctx.fail(("C12", "tall_merge", "open"), case, f"merge_ranges on the open document {open_ranges}, merged {want}")
+        got = list(t2.merge_ranges)
+        if got != want or not t2.cell(r0, 0).is_merged or type(t2.cell(r1, 1)).__name__ != "MergedCell":
+            ctx.fail(("C12", "merge_beyond_row_65535") if r1 >= 65536 else ("C12", "tall_merge", "reopened"), case,
+                     f"rectangle {want[0]}: the reopened file reports merge_ranges {got}, anchor merged {t2.cell(r0, 0).is_merged}, far corner {type(t2.cell(r1, 1)).__name__}")
+        ctx.nt(("tall", r0, r1))
+        ctx.count("tall_tables")
+    finally:
+        shutil.rmtree(tmp, ignore_errors=True)
+
+
 def tasks(tier, seed):
-    t = []
+    t = [("tall", {"r0": 65537, "r1": 65538}), ("tall", {"r0": 65530, "r1": 65534})]
     for k in range(16):
         t.append(("machine", {"n": 10 if tier == "quick" else 160, "steps": 14 if tier == "quick" else 25, "seed": derive_seed(seed, "c12", k)}))
     n = 4 if tier == "quick" else 6
@@ -449,6 +481,8 @@ def tasks(tier, seed):
 def run_task(ctx, lane, **kw):
     if lane == "machine":
         run_machine(ctx, make_machine(ctx), kw["n"], kw["steps"], kw["seed"], exec_factory=MergeExec)
+    elif lane == "tall":
+        check_tall(ctx, {"lane": "tall", "r0": kw["r0"], "r1": kw["r1"]})
     elif lane == "rectangles":
         n, r0 = kw["n"], kw["r0"]
         for c0, r1, c1 in itertools.product(range(n), range(r0, n), range(n)):
@@ -473,4 +507,6 @@ def run_task(ctx, lane, **kw):
 
 
 def check_case(ctx, case):
+    if case.get("lane") == "tall":
+        return check_tall(ctx, case)
     MergeExec(ctx).replay(case["ops"])
